@@ -26,8 +26,14 @@ class C17(object):
             "here (8 always; the optimisation-based ones in the thorough tier): node set and order of pid._lattice vs the "
             "model's lattice, get_red / get_pi of every node vs Moebius inversion of the reds in exact arithmetic, the "
             "flags consistent / complete / nonnegative vs the model's predicates on those numbers, totals, equivariance "
-            "under every permutation of the sources, closed forms of I_min / I_mmi / I_wedge. Non-trivial = 3 sources or "
-            ">= 4 positive outcomes")
+            "under every permutation of the sources, closed forms of I_min / I_mmi / I_wedge (I_wedge: mutual information "
+            "of the connected components of 'agree on some source' with the target, from the definition and from the "
+            "model's meetClasses). Two further streams: (seq) the distribution object was decomposed before with other "
+            "probabilities and then changed in place (item assignment, writes into / rebinding of pmf, integer weights + "
+            "normalize) -- everything above is then checked on the second decomposition of that same object; (wide) sources "
+            "with 4..20 symbols (up to 14 for I_wedge, whose cost on the real code is exponential in the alphabet) that "
+            "share symbol values, structured sparse supports (relabellings, shifts, coarsenings, blocks of a base variable "
+            "plus a few stray outcomes). Non-trivial = 3 sources or >= 4 positive outcomes")
     tolerances = {'permutation equivariance': '1e-6 for closed-form measures, 5e-4 for measures with an optimiser inside (CCS, RAV, GH)', 'identities': 'atol 1e-6 (dit uses isclose(atol=1e-5, rtol=1e-5) for its flags; values within 1e-6..1e-4 of a flag threshold are not judged)',
                   'closed forms': 'atol 1e-9'}
     exhaustive = {}
@@ -116,6 +122,103 @@ class C17(object):
                 # a complete decomposition with a pre-assessed atom that (usually) contradicts the measure: the flags must say so
                 c['pre'] = [rng.choice([[[0]], [[1]], [[0], [1]]]), rng.choice([0.0, 0.05, 0.3])]
             yield c
+        # The streams below come after the first one so that the cases above stay what they were for every seed.
+        for c in self.gen_seq(rng, 8 if tier == 'quick' else 96):
+            yield c
+        for c in self.gen_wide(rng, 10 if tier == 'quick' else 100):
+            yield c
+
+    # ---- stream 2: the same Distribution object, decomposed, changed in place, decomposed again
+    SEQ_HOW = ['setitem', 'pmf-write', 'pmf-rebind', 'weights-normalize']
+
+    @staticmethod
+    def positive_vector(rng, k):
+        for _ in range(20):
+            pv, _ = gen.rand_prob_vector(rng, k, rng.choice(['small', 'uneven', 'dyadic']))
+            if all(p > 0 for p in pv):
+                return pv
+        w = [rng.randint(1, 9) for _ in range(k)]
+        return [Fraction(x, sum(w)) for x in w]
+
+    @staticmethod
+    def small_table(rng, ns, style):
+        """Binary / ternary variables; full ('random') or thinned ('sparse') support; positive probabilities."""
+        alph = [list(range(rng.choice([2, 2, 3]))) for _ in range(ns + 1)]
+        full = [list(o) for o in itertools.product(*alph)]
+        k = len(full) if style == 'random' else rng.randint(3, max(3, len(full) // 2))
+        k = min(k, 12)
+        outs = rng.sample(full, k)
+        pv, _ = gen.rand_prob_vector(rng, k, rng.choice(['small', 'uneven', 'dyadic']))
+        keep = [(o, p) for o, p in zip(outs, pv) if p > 0]
+        return [o for o, _ in keep], [p for _, p in keep]
+
+    def gen_seq(self, rng, n):
+        two = FAST3 + ['PID_RAV', 'PID_RR', 'PID_CT', 'PID_IG']
+        for j in range(n):
+            ns = 3 if j % 4 == 3 else 2
+            style = 'random' if j % 8 == 0 else rng.choice(['random', 'sparse'])
+            outs, pmf = self.small_table(rng, ns, style)
+            # the measures with a closed form come in every run; the others by chance
+            cls = {0: 'PID_WB', 1: 'PID_GK', 2: 'PID_MMI', 3: 'PID_WB', 6: 'PID_WB'}.get(j % 8)
+            if cls is None:
+                cls = rng.choice(two if ns == 2 else ['PID_WB', 'PID_MMI', 'PID_GK', 'PID_PM', 'PID_RDR'])
+            yield {'outs': outs, 'pmf': [str(p) for p in pmf], 'ns': ns, 'cls': cls,
+                   'addr': rng.choice(['default', 'explicit', 'names', 'names-default']),
+                   'dense': rng.random() < 0.3, 'style': style, 'tw': 1, 'pre': None,
+                   'prior': {'pmf': [str(p) for p in self.positive_vector(rng, len(outs))],
+                             'how': self.SEQ_HOW[(j + j // 4) % 4]}}
+
+    # ---- stream 3: larger source alphabets with shared symbol values and structured sparse supports
+    GK_CAP = 14      # I_wedge on the real code builds sigma-algebras with 2**(symbols of a source) members
+
+    @staticmethod
+    def wide_table(rng, ns, n):
+        """Every outcome is a function of a base variable a in range(n): X_i = g_i(a), T = h(a); a few stray outcomes
+        (random symbols of the same alphabets) may be added. All sources draw their symbols from range(n)."""
+        m = rng.choice([2, 3, 4])
+        k = rng.randint(1, n - 1)
+        perm = list(range(n))
+        rng.shuffle(perm)
+        anymap = [rng.randrange(n) for _ in range(n)]
+        src = {'id': lambda a: a, 'mirror': lambda a: n - 1 - a, 'shift': lambda a: (a + k) % n, 'perm': lambda a: perm[a],
+               'coarse': lambda a: a // m, 'mod': lambda a: a % m, 'blockflip': lambda a: min(n - 1, (a // m) * m + (m - 1 - a % m)),
+               'map': lambda a: anymap[a]}
+        tmap = [rng.randrange(3) for _ in range(n)]
+        tgt = {'half': lambda a: int(a < n // 2), 'mod3': lambda a: a % 3, 'block': lambda a: a // m, 'blockparity': lambda a: (a // m) % 2,
+               'map': lambda a: tmap[a], 'mod2': lambda a: a % 2}
+        names = ['id' if rng.random() < 0.6 else rng.choice(sorted(src))]
+        names += [rng.choice(['mirror', 'shift', 'perm', 'coarse', 'mod', 'blockflip', 'map', 'id']) for _ in range(ns - 1)]
+        rng.shuffle(names)
+        tn = rng.choice(sorted(tgt))
+        outs = [[src[g](a) for g in names] + [tgt[tn](a)] for a in range(n)]
+        for _ in range(rng.choice([0, 0, 0, 1, 2])):
+            outs.append([rng.randrange(n) for _ in range(ns)] + [rng.randrange(2)])
+        uniq = []
+        for o in outs:
+            if o not in uniq:
+                uniq.append(o)
+        return uniq, '%s->%s' % ('/'.join(names), tn)
+
+    def gen_wide(self, rng, n_cases):
+        g2 = 0
+        for j in range(n_cases):
+            cls = 'PID_GK' if j % 2 == 0 else ['PID_WB', 'PID_MMI', 'PID_PM', 'PID_RDR', 'PID_CCS'][(j // 2) % 5]
+            ns = 3 if j % 5 == 4 else 2
+            if cls == 'PID_GK' and ns == 2:
+                # the upper end of what the real code handles within the budget comes in every run
+                n = [self.GK_CAP, None, self.GK_CAP - 1, None][g2 % 4] or rng.randint(4, self.GK_CAP)
+                g2 += 1
+            elif cls == 'PID_GK':
+                n = rng.randint(4, 9)
+            elif cls == 'PID_CCS':
+                ns, n = 2, rng.randint(4, 9)
+            else:
+                n = rng.randint(4, 20 if ns == 2 else 10)
+            outs, shape = self.wide_table(rng, ns, n)
+            pv = self.positive_vector(rng, len(outs)) if rng.random() < 0.7 else [Fraction(1, len(outs))] * len(outs)
+            yield {'outs': outs, 'pmf': [str(p) for p in pv], 'ns': ns, 'cls': cls,
+                   'addr': rng.choice(['default', 'explicit', 'names', 'names-default']),
+                   'dense': n <= 6 and rng.random() < 0.3, 'style': 'wide', 'tw': 1, 'pre': None, 'shape': shape}
 
     def shrink(self, case):
         if case['cls'] != 'PID_MMI' and not case.get('pre'):
@@ -137,6 +240,37 @@ class C17(object):
             d.make_dense()
         if case['addr'].startswith('names'):
             d.set_rv_names('ABCD'[:ns + case.get('tw', 1)])
+        return d
+
+    def build_seq(self, case):
+        """The object of a 'seq' case: built with other probabilities on the same outcomes, decomposed once (every
+        redundancy and atom read), then given the case's probabilities in place through the public interface."""
+        prior = case['prior']
+        d = self.build(dict(case, pmf=prior['pmf']))
+        p0 = self.make_pid(case, d)
+        for nd in p0._lattice:
+            p0.get_red(nd)
+            p0.get_pi(nd)
+        new = {tuple(o): Fraction(p) for o, p in zip(case['outs'], case['pmf'])}
+        how = prior['how']
+        if how == 'setitem':
+            for o, pp in new.items():
+                d[o] = float(pp)
+        elif how == 'pmf-write':
+            for i, o in enumerate(d.outcomes):
+                d.pmf[i] = float(new.get(tuple(o), 0))
+        elif how == 'pmf-rebind':
+            d.pmf = np.array([float(new.get(tuple(o), 0)) for o in d.outcomes])
+        elif how == 'weights-normalize':
+            den = 1
+            for pp in new.values():
+                den = den * pp.denominator // math.gcd(den, pp.denominator)
+            for o, pp in new.items():
+                d[o] = float(pp * den)
+            d.normalize()
+        else:
+            raise ValueError(how)
+        d.validate()
         return d
 
     def make_pid(self, case, d):
@@ -172,6 +306,10 @@ class C17(object):
         r.site = 'dit.pid.' + case['cls']
         r.features = ['cls=%s' % case['cls'], 'ns=%d' % case['ns'], 'addr=%s' % case['addr'], 'style=%s' % case['style'],
                       'dense=%s' % case['dense']]
+        na = max(len(set(o[i] for o in case['outs'])) for i in range(case['ns']))
+        r.features.append('source-symbols=%s' % ('<=3' if na <= 3 else '4-8' if na <= 8 else '9-12' if na <= 12 else '13+'))
+        if case.get('prior'):
+            r.features.append('seq=%s' % case['prior']['how'])
         try:
             self.run_inner(case, drv, r)
         except core.DriverError:
@@ -183,13 +321,18 @@ class C17(object):
                 return r
             r.oracle_fail = '%s raised %s: %s' % (case['cls'], type(e).__name__, str(e)[:160])
             r.detail = {'traceback': traceback.format_exc()[-700:]}
+        if case.get('prior') and (r.oracle_fail or r.mismatch):
+            note = (' [second decomposition of a Distribution object that was decomposed with probabilities %s and then given '
+                    'the case\'s probabilities in place by %s]' % (case['prior']['pmf'], case['prior']['how']))
+            r.oracle_fail = r.oracle_fail + note if r.oracle_fail else None
+            r.mismatch = r.mismatch + note if r.mismatch else None
         return r
 
     def run_inner(self, case, drv, r):
         dit = import_dit()
         from dit.multivariate import coinformation
         ns = case['ns']
-        d = self.build(case)
+        d = self.build_seq(case) if case.get('prior') else self.build(case)
         p = self.make_pid(case, d)
         r.nontrivial = ns == 3 or len(case['outs']) >= 4
         nodes, below, top, bottom = drv.call('lattice', [ns])
@@ -284,6 +427,23 @@ class C17(object):
             if not case.get('pre') and any(v < -1e-9 for v in pis.values()):    # (a pre-assessed atom is the caller's, not the measure's)
                 r.oracle_fail = '%s has a negative atom: %s' % (name, min(pis.values()))
                 return
+        if case['cls'] == 'PID_GK' and not any(0 < Fraction(pp) < Fraction(1, 10 ** 7) for pp in case['pmf']):
+            # I_wedge(node) = I(meet of the node's sources : target); the meet's atoms are the connected components of the
+            # support under "agree on some source". Model: meetClasses; definition: union-find below.
+            rows = [(list(o), float(Fraction(pp))) for o, pp in zip(case['outs'], case['pmf']) if Fraction(pp) > 0]
+            for x in mnodes:
+                cl = drv.call('classes', ['meet', [o for o, _ in rows], [list(sx) for sx in x]])
+                lab = {tuple(o): k for k, c in enumerate(cl) for o in c}
+                v = self.mi_labels([(lab[tuple(o)], tuple(o[i] for i in target), pp) for o, pp in rows])
+                if abs(v - reds[x]) > 1e-9:
+                    r.mismatch = 'iwedge%s: impl %r, I(model meet classes : target) = %r' % (x, reds[x], v)
+                    break
+            ref = self.ref_wedge(rows, mnodes, target)
+            for x in mnodes:
+                if abs(ref[x] - reds[x]) > 1e-9:
+                    r.oracle_fail = ('iwedge%s = %r, closed form I(meet:target) gives %r (the meet has %d atoms on a support of %d)'
+                                     % (x, reds[x], ref[x], self.meet_labels(rows, x)[1], len(rows)))
+                    return
         # ---- permutation equivariance
         if (case['cls'] in ALWAYS or ns == 2) and not case.get('pre') and case['cls'] not in NOT_EQUIVARIANT_BY_DESIGN:
             for perm in itertools.permutations(range(ns)):
@@ -308,6 +468,28 @@ class C17(object):
                             r.detail = dict(r.detail or {}, ccs_min_pointwise_term=m)
                             if m < 5e-3:
                                 r.site = 'dit.pid.PID_CCS.near-sign-change'
+                        if case['cls'] == 'PID_GH':
+                            # I_GH is computed by a randomised optimiser (SciPy basin hopping on NumPy's global generator).
+                            # Decide whether the two values differ because the sources were permuted or because the
+                            # optimiser lands on different optima from run to run: repeat the UNPERMUTED decomposition.
+                            import time as _time
+                            reps, t0_ = [a, b], _time.time()
+                            for k_ in range(24):
+                                if _time.time() - t0_ > 12:
+                                    break
+                                try:
+                                    if k_ % 2 == 0:
+                                        reps.append(float(self.make_pid(case, self.build(case)).get_red(pnodes[x])))
+                                    else:
+                                        reps.append(float(self.make_pid(case, self.build(case, perm)).get_red(nd2)))
+                                except Exception:  # noqa
+                                    break
+                            # spread of the value within ONE order of the sources (each order has its own repeats)
+                            own, oth = [a] + reps[2::2], [b] + reps[3::2]
+                            spread = max(max(own) - min(own), max(oth) - min(oth))
+                            r.detail = dict(r.detail or {}, gh_repeat_values=reps, gh_repeat_spread=spread)
+                            if spread > ptol:
+                                r.site = 'dit.pid.PID_GH.optimiser-random'
                         return
 
     @staticmethod
@@ -336,6 +518,46 @@ class C17(object):
             terms.append(np.log2(np.prod([sub[rv][tuple(e[i] for i in flatten(rv))] ** ((-1) ** len(rv)) for rv in sub_rvs])))
         terms = [abs(float(t)) for t in terms if np.isfinite(t) and not np.isclose(t, 0.0)]
         return min(terms) if terms else 1.0
+
+    @staticmethod
+    def meet_labels(rows, node):
+        """Label of every support outcome = its connected component under "same value of some source of the node"."""
+        parent = list(range(len(rows)))
+
+        def find(i):
+            while parent[i] != i:
+                parent[i] = parent[parent[i]]
+                i = parent[i]
+            return i
+        for sx in node:
+            first = {}
+            for k, (o, _) in enumerate(rows):
+                v = tuple(o[i] for i in sx)
+                if v in first:
+                    parent[find(k)] = find(first[v])
+                else:
+                    first[v] = k
+        labels = [find(k) for k in range(len(rows))]
+        return labels, len(set(labels))
+
+    @staticmethod
+    def mi_labels(triples):
+        """I(A:B) in bits from (a, b, p) triples."""
+        pa, pb, pab = {}, {}, {}
+        for a, b, pp in triples:
+            pa[a] = pa.get(a, 0.0) + pp
+            pb[b] = pb.get(b, 0.0) + pp
+            pab[(a, b)] = pab.get((a, b), 0.0) + pp
+        h = lambda m: -sum(v * math.log2(v) for v in m.values() if v > 0)
+        return h(pa) + h(pb) - h(pab)
+
+    @classmethod
+    def ref_wedge(cls, rows, nodes, target):
+        out = {}
+        for x in nodes:
+            labels, _ = cls.meet_labels(rows, x)
+            out[x] = cls.mi_labels([(lb, tuple(o[i] for i in target), pp) for lb, (o, pp) in zip(labels, rows)])
+        return out
 
     @staticmethod
     def ref_red(name, rows, ns):
